@@ -178,10 +178,16 @@ void adapter_exec(Ev *ev)
         int m = ty == 32 ? 5 : 10;
         uint64_t v = from_groups(ev->a + 2, m);
         size_t max = (size_t)m;
-        unsigned char *blk = xblock(max);
-        memset(blk, 0xee, max);
+        /* every third case: the buffer object has been used for another (longest) encoding before and is not reset in between -
+         * what it holds afterwards is the new encoding and nothing of the old one */
+        static unsigned encs;
+        int reused = (encs++ % 3) == 2;
+        size_t bsz = reused ? 2 * max : max;
+        unsigned char *blk = xblock(bsz);
+        memset(blk, 0xee, bsz);
         ByteBuffer b;
-        byte_buffer_space(&b, blk, max);
+        byte_buffer_space(&b, blk, bsz);
+        if (reused) { if (ty == 32) (void)varint_encode_u32(&b, 0xFFFFFFFFu); else (void)varint_encode_u64(&b, ~(uint64_t)0); }
         int rc; size_t lq;
         Cap cap = { {0}, 0 };
         Sink snk; FlavSink fk;
